@@ -930,10 +930,20 @@ func (s *State) addCmd(c *cmd) {
 	if sup := c.subCmdOf; sup != nil {
 		pr2 := s.printNetspocCmd(sup)
 		s.setCmdConfMode(pr2)
-	} else if c.typ.sub != nil {
-		s.subCmdOf = pr
 	} else {
-		s.subCmdOf = ""
+		// Prevent toplevel command "webvpn" be given in mode
+		// (config-group-policy) or (config-username),
+		// since these modes also have a subcommand "webvpn".
+		if c.typ.prefix == "webvpn" &&
+			(strings.HasPrefix(s.subCmdOf, "group-policy ") ||
+				strings.HasPrefix(s.subCmdOf, "username ")) {
+			s.addChange("exit")
+		}
+		if c.typ.sub != nil {
+			s.subCmdOf = pr
+		} else {
+			s.subCmdOf = ""
+		}
 	}
 	s.addChange(pr)
 	for _, sub := range c.sub {
